@@ -14,7 +14,7 @@ CODEC_MC = dict(module="MC_Codec", quick="MC_Codec.cfg", thorough="MC_Codec_T.cf
 WRITER_MC = dict(module="MC_Writer", quick="MC_Writer.cfg", thorough="MC_Writer_T.cfg", workers=8)
 WRITER_STAGE = dict(cmd="writer", spec="Trace_Writer", histfile=True,
                     quick=dict(chunks=8, maxlen=3, deeplen=4, deeptypes=1, random=6, modeltypes=3),
-                    thorough=dict(chunks=16, maxlen=5, deeplen=6, deeptypes=3, random=60))
+                    thorough=dict(chunks=16, maxlen=4, deeplen=5, deeptypes=2, random=60, modeltypes=5))
 
 READER_MC = dict(module="MC_Reader", quick="MC_Reader.cfg", thorough="MC_Reader_T.cfg", workers=4)
 READER_STAGE = dict(cmd="reader", spec="Trace_Reader", histfile=True,
@@ -211,7 +211,7 @@ PROPS = {
         mc=[WRITER_MC],
         stages=[dict(cmd="writer", spec="Trace_Writer", histfile=True,
                      quick=dict(chunks=8, maxlen=2, random=4, allx=1, modeltypes=3),
-                     thorough=dict(chunks=16, maxlen=5, random=40, allx=1)),
+                     thorough=dict(chunks=16, maxlen=3, random=40, allx=1, modeltypes=5)),
                 # "through the complete writer the rejected shape's attribute row is not written either"
                 dict(cmd="complete", spec="Trace_Complete", quick=dict(chunks=4, maxlen=3, types=13, random=4),
                      thorough=dict(chunks=8, maxlen=5, types=13, random=40))],
@@ -240,10 +240,14 @@ PROPS = {
                    "inverts the reference encoder and then executes it on the bytes the real writer produced in every recorded case",
         level_note="trusted: TLC and the TLA+ StrictShp operator (checked against the reference encoder by MC_Codec)",
         technique="TLA+ strict decoder evaluated by TLC on real output bytes (trace validation) + TLC model check of decoder/encoder",
-        mc=[CODEC_MC],
+        mc=[CODEC_MC, WRITER_MC],
         stages=[dict(cmd="codec", spec="Trace_Codec", gen="Gen_Shapes",
                      quick=dict(chunks=6, cases=10, large=1),
-                     thorough=dict(chunks=16, cases=60, large=6, sweep=1))],
+                     thorough=dict(chunks=16, cases=60, large=6, sweep=1)),
+                # files left behind by histories with finalizes and rejected writes are files too
+                dict(cmd="writer", spec="Trace_Writer", histfile=True,
+                     quick=dict(chunks=4, maxlen=3, random=4, modeltypes=0, nopath=1),
+                     thorough=dict(chunks=8, maxlen=3, random=30, modeltypes=3))],
         rule="a case = the bytes left by the real writer (cursor+drop, cursor+finalize, by path) for 0..4 shapes; "
              "the TLA+ strict validator/decoder StrictShp runs on those bytes",
         assumptions=["the strict decoder is the TLA+ operator StrictShp; it shares no code with the library"],
@@ -282,7 +286,7 @@ PROPS = {
                      thorough=dict(chunks=12, cases=50, large=6, sweep=1)),
                 dict(cmd="writer", spec="Trace_Writer", histfile=True,
                      quick=dict(chunks=4, maxlen=2, random=4, modeltypes=1),
-                     thorough=dict(chunks=12, maxlen=4, random=40, modeltypes=13)),
+                     thorough=dict(chunks=12, maxlen=3, random=40, modeltypes=4)),
                 dict(cmd="reader", spec="Trace_Reader",
                      quick=dict(chunks=4, nrecs="0,1,2,4", maxlen=2, random=10, types=13),
                      thorough=dict(chunks=8, nrecs="0,1,2,4,7", maxlen=2, random=100, types=13))],
@@ -304,7 +308,7 @@ PROPS = {
                      thorough=dict(chunks=16, cases=60, large=6, sweep=1, nonan=1)),
                 dict(cmd="writer", spec="Trace_Writer", histfile=True,
                      quick=dict(chunks=4, maxlen=2, random=6, modeltypes=0, rank=1),
-                     thorough=dict(chunks=12, maxlen=3, random=40, modeltypes=13, rank=1))],
+                     thorough=dict(chunks=12, maxlen=3, random=40, modeltypes=4, rank=1))],
         rule="a case = 0..4 shapes whose vertices are drawn over ranked value ids with the extreme at random positions "
              "(first/middle/last vertex, any part, any shape); each trace file uses its own order-preserving concretisation",
     ),
